@@ -211,7 +211,7 @@ def run(ctx):
       ctx.violation(f'C02:design-crash:{W}:{R}:{wk}:{rk}:{ex}:{type(e).__name__}', f'shaped design ({W} written by {wk}, {R} read by {rk}, {ex}) failed: {type(e).__name__}: {str(e)[:200]}',
                     {'design_source': src, 'traceback': traceback.format_exc()[-1500:]})
   # random larger designs
-  for j in range(40 if quick else 400):
+  for j in range(40 if quick else 200):
     g = sc.Gen(random.Random(rng.randrange(1 << 30)), f'R{j}', size=rng.choice(['medium', 'large'])).build()
     cls, _ = sc.load_source(ctx, g.source(), g.name)
     check_orders(ctx, g.name, g.source(), cls, variants, coq_cases, coq_meta)
@@ -230,8 +230,8 @@ def run(ctx):
     except Exception as e:
       ctx.violation(f'C02:fl-design-crash:{type(e).__name__}', f'FL design failed: {type(e).__name__}: {str(e)[:200]}', {'design_source': src, 'traceback': traceback.format_exc()[-1500:]})
   # pure constraint graphs
-  for j in range(12 if quick else 120):
-    n = rng.choice([5, 8, 13, 30, 60] if quick else [5, 8, 13, 30, 60, 120, 300])
+  for j in range(12 if quick else 60):
+    n = rng.choice([5, 8, 13, 30, 60] if quick else [5, 8, 13, 30, 60, 120])
     perm = list(range(n)); rng.shuffle(perm)
     edges = set()
     for _ in range(rng.randrange(n, 3 * n)):
